@@ -204,6 +204,79 @@ def _relocation_rule(ctx, m2):
                             "when two tracks share one key-frame blob the cursor runs ahead of the data actually written: every later relocated offset points past its data and the re-parsed model has different key frames")
 
 
+def _track_skip_rule(ctx, m2):
+    """key-frame collectors skip a track only when it has neither timestamps nor values (truth table over the two emptiness facts)"""
+    R = ctx.rule("C13.track-skipped-only-when-fully-empty", "every collect_*_track_data skips a track exactly when timestamps AND values are both empty", floor=8)
+    from .c10 import _bval, _NoEval
+    for f in m2.fn_list:
+        if f.kind == "Closure" or not f.hir or not re.search(r"model::collect_\w*track_data$", norm(f.path)):
+            continue
+        hit = False
+        for n in hirq.find(f.hir["body"], "if"):
+            r_ = hirq.render(n["c"])
+            if "timestamps" not in r_ or "is_empty" not in r_:
+                continue
+            if not any(x.get("k") in ("ret", "continue") for x in hirq.walk(n["then"])):
+                continue
+            tab = {}
+            try:
+                for te in (True, False):
+                    for ve in (True, False):
+                        env = {"__leaf__": (lambda q, te=te, ve=ve: (0 if te else 3) if "timestamps" in q else ((0 if ve else 3) if ("values" in q or "array" in q) else None))}
+                        tab[(te, ve)] = _bval(n["c"], env, {})
+            except _NoEval:
+                continue
+            hit = True
+            ctx.saw_fn(f)
+            if tab == {(True, True): True, (True, False): False, (False, True): False, (False, False): False}:
+                ctx.ok(R, {"fn": norm(f.path), "cond": r_[:80]})
+            else:
+                ctx.bad(R, "%s|skip-guard" % norm(f.path).split("::")[-1], "%s:%d" % (f.file, n["ln"]), "`%s` skips a track with %s" % (r_[:80], [("no timestamps" if a else "timestamps") + " / " + ("no values" if b else "values") for (a, b), v in tab.items() if v and not (a and b)]),
+                        "a half-populated track (a constant: one value, no timestamps) is not preserved: parse(write(m)) loses its key-frame data and the next write zeroes it")
+        if not hit:
+            ctx.note_unarmed(R, norm(f.path), "no emptiness skip guard recognised")
+
+
+def _section_reset_rule(ctx, m2):
+    """M2Model::write starts from a clone of the parsed header: a section whose reference is set when non-empty must be
+    reset when empty, or the stale (count, offset) of the source file survives"""
+    R = ctx.rule("C13.section-reference-reset-when-empty", "in M2Model::write every `if <non-empty> { header.F = M2Array::new(n, off) .. }` has an else branch that assigns header.F as well", floor=15)
+    f = m2.fns.get("wow_m2::model::M2Model::write")
+    if f is None or not f.hir:
+        ctx.bad(R, "M2Model::write|missing", "-", "function not found", "anchor gone")
+        return
+    ctx.saw_fn(f)
+
+    def header_fields(n):
+        out = set()
+        for x in hirq.walk(n, into_closures=False):
+            if x.get("k") == "assign":
+                l = hirq.strip(x["l"])
+                if l.get("k") == "field" and hirq.render(hirq.strip(l["e"])) == "header":
+                    out.add(l["name"])
+        return out
+    blk = hirq.strip(f.hir["body"])
+    tops = blk.get("stmts", []) + ([blk["e"]] if blk.get("e") else []) if blk.get("k") == "block" else []
+    for n in tops:
+        if n.get("k") != "if":
+            continue
+        set_then = header_fields(n["then"])
+        if not set_then:
+            continue
+        set_else = header_fields(n["else"]) if n.get("else") is not None else set()
+        # a reset under the complementary condition elsewhere in the function (e.g. the version-specific epilogue) counts too
+        elsewhere = set()
+        for m_ in tops:
+            if m_ is not n:
+                elsewhere |= header_fields(m_)
+        missing = sorted(set_then - set_else - elsewhere)
+        if missing:
+            ctx.bad(R, "M2Model::write|no-reset|%s" % missing[0], "%s:%d" % (f.file, n["ln"]), "`if %s` sets header.%s but the empty case leaves it as it was in the source header" % (hirq.render(n["c"])[:50], ", header.".join(missing)),
+                    "after the list was emptied (parse, clear, write) the file still announces the old count at a stale offset: parsing it decodes entries from unrelated bytes")
+        else:
+            ctx.ok(R, {"section_line": n["ln"], "fields": sorted(set_then)})
+
+
 def _conversion_path_rule(ctx, m2):
     """M2Converter's multi-step paths: for every (from, to) index pair the listed steps start next to `from` and end at `to`"""
     R = ctx.rule("C13.conversion-path-reaches-target", "build_conversion_paths: for all index pairs the upgrade slice is (from, to] ascending and the downgrade slice is [to, from) descending — decided over every ordering of the two indices", floor=2)
@@ -306,6 +379,8 @@ def run(ctx):
 
     _relocation_rule(ctx, m2)
     _conversion_path_rule(ctx, m2)
+    _track_skip_rule(ctx, m2)
+    _section_reset_rule(ctx, m2)
     by_owner = owners(m2)
     armed = 0
     for owner, fs in sorted(by_owner.items()):
